@@ -1,6 +1,7 @@
 import TextxVerif.Wire
 import TextxVerif.ProcWalk
 import TextxVerif.ProcLocate
+import TextxVerif.ProcRaise
 /-! Driver for the processor models (C13, C33).
 ops:
   {"op":"objproc","kinds":[0|1|2 …],"reg":[cls…],"user":[cls…],"script":[[rule,id,R]…],
@@ -16,6 +17,14 @@ ops:
    "raised":"other"|{"f":n|null,"l":n|null,"c":n|null,"n":n|null},"site":{"f":n|null,"l":n,"c":n,"n":n},
    "pinned"?:bool}
    → {"textx":{"f","l","c","n"}} | {"other":true}
+   instead of "site" (the location as the real object reports it) the request may carry what the location is
+   computed from:
+     "src":{"f":n|null,"text":str,"pos":n,"end":n}       → site = Proc.siteOf (pos_to_linecol of the text)
+     "walk":{"kinds","regs":[[cls…]…],"models":[V…],"raise":[rule,id],
+             "srcs":[{"f":n|null,"text":str}…] (one per model),"spans":[[id,pos,end]…]}
+        → the models are walked in order with the processor of `rule` raising on object `id` (Proc.loadE);
+          the site is that of the object the failing call is made on; the answer also carries
+          "fail":{"model":k,"call":[rule,id],"before":[[rule,id]…]}  (or {"nofail":true} when nothing raises)
 -/
 open Lean Wire Proc
 
@@ -163,18 +172,64 @@ def handle (j : Json) : Json :=
       | .ok (.str "other") => some .other
       | .ok r => (parseLoc r).map Raised.textx
       | .error _ => none
-    let site : Option Site := do
-      let s ← getObj? j "site"
-      pure ⟨← optNat s "f", ← getNat? s "l", ← getNat? s "c", ← getNat? s "n"⟩
-    match kind, getBool? j "wrapped", raised, site with
-    | some k, some w, some r, some s =>
+    let answer (k : PKind) (w : Bool) (r : Raised) (s : Site) (extra : List (String × Json)) : Json :=
       -- "pinned":true evaluates the enrichment as it was before the repair (used once to validate
       -- `wrap`/`given` against the unrepaired tree, where the two paths are distinguishable)
       match (if getBool? j "pinned" == some true then outcomePinned k s w r else outcome k s w r) with
-      | .other => Json.mkObj [("other", true)]
-      | .textx l => Json.mkObj [("textx", Json.mkObj [("f", optJson l.filename), ("l", optJson l.line),
-                                                     ("c", optJson l.col), ("n", optJson l.nchar)])]
-    | _, _, _, _ => badOp
+      | .other => Json.mkObj ([("other", Json.bool true)] ++ extra)
+      | .textx l => Json.mkObj ([("textx", Json.mkObj [("f", optJson l.filename), ("l", optJson l.line),
+                                                      ("c", optJson l.col), ("n", optJson l.nchar)])] ++ extra)
+    match kind, getBool? j "wrapped", raised with
+    | some k, some w, some r =>
+      match j.getObjVal? "walk", j.getObjVal? "src", j.getObjVal? "site" with
+      | .ok wj, _, _ =>
+        -- the failing call and its site are determined by the walk
+        let srcs : Option (List (Option Nat × List Char)) := (getArr? wj "srcs").bind fun a =>
+          a.toList.mapM fun x => do pure (← optNat x "f", (← getStr? x "text").toList)
+        let spans : Option (List (Nat × Nat × Nat)) := (getArr? wj "spans").bind fun a =>
+          a.toList.mapM fun x => do
+            let xs ← asArr? x
+            pure (← asNat? (← xs[0]?), ← asNat? (← xs[1]?), ← asNat? (← xs[2]?))
+        match k, getNatList? wj "kinds", (getArr? wj "regs").bind (fun a => a.toList.mapM (fun x => (asArr? x).bind (fun xs => xs.toList.mapM asNat?))),
+              (getArr? wj "models").bind (fun a => a.toList.mapM parseVal), getNatList? wj "raise", srcs, spans with
+        | .obj, some ks, some regs, some models, some [rr, ri], some srcs, some spans =>
+          if regs.length ≠ models.length ∨ srcs.length ≠ models.length then badOp else
+          let mk (rg : List Nat) : MM := { kind := kindOf ks.toArray, hasProc := fun c => rg.contains c }
+          let mms : List (MM × Val) := (regs.zip models).map (fun p => (mk p.1, p.2))
+          let S : Script := fun _ _ => .none
+          let R : Raises := fun a b => a == rr && b == ri
+          if mms.all (fun p => wf p.1 p.2 p.2.cls && (match p.2 with | .obj _ _ _ => true | _ => false)) then
+            match loadE S R mms with
+            | .ok _ => Json.mkObj [("nofail", true)]
+            | .error (km, f) =>
+              match srcs[km]? with
+              | none => badOp
+              | some (file, text) =>
+                let span : Nat → Nat × Nat := fun i =>
+                  match spans.find? (fun e => e.1 == i) with
+                  | some e => (e.2.1, e.2.2)
+                  | none => (0, 0)
+                let src : Src := ⟨file, text, span⟩
+                let site := siteOf src.file src.text (src.span f.call.id).1 (src.span f.call.id).2
+                let keyJ (e : Entry) : Json := Json.arr #[toJson e.rule, toJson e.id]
+                let before := ((mms.take km).map (fun p => (walk p.1 S p.2 p.2.cls).log)).flatten ++ f.log
+                answer .obj w r site
+                  [("fail", Json.mkObj [("model", toJson km), ("call", keyJ f.call),
+                                        ("before", Json.arr (before.map keyJ).toArray)])]
+          else Json.mkObj [("err", "not-wf")]
+        | _, _, _, _, _, _, _ => badOp
+      | _, .ok sj, _ =>
+        match optNat sj "f", getStr? sj "text", getNat? sj "pos", getNat? sj "end" with
+        | some f, some text, some pos, some pe => answer k w r (siteOf f text.toList pos pe) []
+        | _, _, _, _ => badOp
+      | _, _, .ok sj =>
+        let site : Option Site := do
+          pure ⟨← optNat sj "f", ← getNat? sj "l", ← getNat? sj "c", ← getNat? sj "n"⟩
+        match site with
+        | some s => answer k w r s []
+        | none => badOp
+      | _, _, _ => badOp
+    | _, _, _ => badOp
   | _ => badOp
 
 def main : IO Unit := serve handle
